@@ -61,6 +61,10 @@ def _text_of(prot, value):
     """MessagePack hands text over as bytes (it is what we write, too)."""
 
     if isinstance(value, six.binary_type):
+        if prot.default_string_encoding is None:
+            # not a protocol that carries text as bytes
+            raise ValidationError(value)
+
         try:
             return value.decode(prot.default_string_encoding)
         except UnicodeDecodeError as e:
